@@ -146,7 +146,7 @@ def run(tier):
     for i in range(n):
         k = int(rng.integers(1, 5))
         insts.append(dict(id=i + 1, seed=int(rng.integers(0, 2 ** 31 - 1)), n=int(rng.integers(1, 7)), sets=[str(rng.choice(["ball", "half", "box"])) for _ in range(k)],
-                          mag=float(rng.choice([0.0, 1.0, 10.0, 300.0])), tol=float(rng.choice([1e-10, 1e-10, 1e-6, 1e-14])), maxiter=int(rng.choice([100, 100, 5, 1000])),
+                          mag=float(rng.choice([0.0, 1.0, 10.0, 300.0])), tol=float(rng.choice([1e-10, 1e-10, 1e-6, 1e-14, 1e-18, 1e-24, 0.0])), maxiter=int(rng.choice([100, 100, 5, 1000])),
                           reps=4, alias=bool(rng.random() < 0.35)))
     ctx = mp.get_context("fork")
     with ctx.Pool(16) as pool:
